@@ -114,6 +114,16 @@ func listenerGoroutines() int {
 
 func TestRequestReply(t *testing.T) {
 	rapid.Check(t, func(t *rapid.T) {
+		if rapid.IntRange(0, 2).Draw(t, "handlerWithoutResult") == 0 {
+			rrCase[struct{}](t, false)
+		} else {
+			rrCase[Res](t, true)
+		}
+	})
+}
+
+func rrCase[R any](t *rapid.T, withResult bool) {
+	{
 		nCallers := rapid.IntRange(1, 32).Draw(t, "callers")
 		ackErrs := rapid.Bool().Draw(t, "ackCommandErrors")
 		var timeout *time.Duration
@@ -136,7 +146,7 @@ func TestRequestReply(t *testing.T) {
 		w := &world{deliv: map[string][]*cmdDelivery{}, finished: map[string]int{}, attempts: map[string]int{}, published: map[string]int{}, gates: map[string]chan struct{}{}}
 		gc := gochannel.NewGoChannel(gochannel.Config{}, watermill.NopLogger{})
 		logger := watermill.NopLogger{}
-		backend, err := requestreply.NewPubSubBackend[Res](requestreply.PubSubBackendConfig{
+		backend, err := requestreply.NewPubSubBackend[R](requestreply.PubSubBackendConfig{
 			Publisher:              &replyPub{inner: gc, w: w},
 			SubscriberConstructor:  func(requestreply.PubSubBackendSubscribeParams) (message.Subscriber, error) { return gc, nil },
 			GenerateSubscribeTopic: func(requestreply.PubSubBackendSubscribeParams) (string, error) { return "reply", nil },
@@ -146,7 +156,13 @@ func TestRequestReply(t *testing.T) {
 			ListenForReplyTimeout:  timeout,
 			ModifyNotificationMessage: func(msg *message.Message, p requestreply.PubSubBackendOnCommandProcessedParams) error {
 				// lets the reply publisher wrapper find the command delivery this reply belongs to
-				msg.SetContext(context.WithValue(msg.Context(), cmdKey{}, p.Command.(*Cmd).ID))
+				id := p.Command.(*Cmd).ID
+				msg.SetContext(context.WithValue(msg.Context(), cmdKey{}, id))
+				// the reply names the command and the attempt it was produced for
+				w.mu.Lock()
+				msg.Metadata.Set("cmd", id)
+				msg.Metadata.Set("attempt", fmt.Sprint(w.attempts[id]))
+				w.mu.Unlock()
 				return nil
 			},
 			OnListenForReplyFinished: func(ctx context.Context, p requestreply.PubSubBackendSubscribeParams) {
@@ -154,7 +170,7 @@ func TestRequestReply(t *testing.T) {
 				w.finished[p.Command.(*Cmd).ID]++
 				w.mu.Unlock()
 			},
-		}, requestreply.BackendPubsubJSONMarshaler[Res]{})
+		}, requestreply.BackendPubsubJSONMarshaler[R]{})
 		if err != nil {
 			t.Fatalf("NewPubSubBackend: %v", err)
 		}
@@ -189,7 +205,7 @@ func TestRequestReply(t *testing.T) {
 				w.gates[fmt.Sprintf("cmd%d", i)] = make(chan struct{})
 			}
 		}
-		err = proc.AddHandlers(requestreply.NewCommandHandlerWithResult[Cmd, Res]("handler", backend, func(ctx context.Context, c *Cmd) (Res, error) {
+		handle := func(ctx context.Context, c *Cmd) (int, error) {
 			w.mu.Lock()
 			w.attempts[c.ID]++
 			n := w.attempts[c.ID]
@@ -203,10 +219,23 @@ func TestRequestReply(t *testing.T) {
 			}
 			s := specOf(c.ID)
 			if n <= s.Fails {
-				return Res{CmdID: c.ID, Attempt: n}, stderrors.New(s.Err)
+				return n, stderrors.New(s.Err)
 			}
-			return Res{CmdID: c.ID, Attempt: n}, nil
-		}))
+			return n, nil
+		}
+		var ch cqrs.CommandHandler
+		if withResult {
+			ch = requestreply.NewCommandHandlerWithResult[Cmd, Res]("handler", any(backend).(requestreply.Backend[Res]), func(ctx context.Context, c *Cmd) (Res, error) {
+				n, err := handle(ctx, c)
+				return Res{CmdID: c.ID, Attempt: n}, err
+			})
+		} else {
+			ch = requestreply.NewCommandHandler[Cmd]("handler", any(backend).(requestreply.Backend[struct{}]), func(ctx context.Context, c *Cmd) error {
+				_, err := handle(ctx, c)
+				return err
+			})
+		}
+		err = proc.AddHandlers(ch)
 		if err != nil {
 			t.Fatalf("AddHandlers: %v", err)
 		}
@@ -251,29 +280,43 @@ func TestRequestReply(t *testing.T) {
 			return s.Fails + 1
 		}
 		var vmu sync.Mutex
+		seenAttempts := map[string][]int{}
 		var viol []string
 		bad := func(f string, a ...any) { vmu.Lock(); viol = append(viol, fmt.Sprintf(f, a...)); vmu.Unlock() }
-		checkReply := func(id string, r requestreply.Reply[Res], s callerSpec) (terminal bool) {
+		checkReply := func(id string, r requestreply.Reply[R], s callerSpec) (terminal bool) {
 			var te requestreply.ReplyTimeoutError
 			if stderrors.As(r.Error, &te) {
 				return true
 			}
-			if r.HandlerResult.CmdID != id {
-				bad("foreign reply: caller of %s received a reply produced for %q (attempt %d)", id, r.HandlerResult.CmdID, r.HandlerResult.Attempt)
+			if r.NotificationMessage == nil {
+				bad("reply content: caller of %s received a handler reply without its notification message (error %v)", id, r.Error)
 				return false
 			}
-			wantErr := r.HandlerResult.Attempt <= s.Fails
+			forCmd := r.NotificationMessage.Metadata.Get("cmd")
+			attempt := 0
+			fmt.Sscanf(r.NotificationMessage.Metadata.Get("attempt"), "%d", &attempt)
+			if forCmd != id {
+				bad("foreign reply: caller of %s received a reply produced for %q (attempt %d)", id, forCmd, attempt)
+				return false
+			}
+			if res, ok := any(r.HandlerResult).(Res); ok && (res.CmdID != id || res.Attempt != attempt) {
+				bad("reply content: caller of %s received result %+v in the reply of attempt %d", id, res, attempt)
+			}
+			vmu.Lock()
+			seenAttempts[id] = append(seenAttempts[id], attempt)
+			vmu.Unlock()
+			wantErr := attempt <= s.Fails
 			if wantErr != (r.Error != nil) {
-				bad("reply content: %s attempt %d: error=%v, script says error=%v", id, r.HandlerResult.Attempt, r.Error, wantErr)
+				bad("reply content: %s attempt %d: error=%v, script says error=%v", id, attempt, r.Error, wantErr)
 			} else if wantErr && r.Error.Error() != s.Err {
-				bad("reply content: %s attempt %d: error text %q, handler returned %q", id, r.HandlerResult.Attempt, r.Error.Error(), s.Err)
+				bad("reply content: %s attempt %d: error text %q, handler returned %q", id, attempt, r.Error.Error(), s.Err)
 			}
 			return false
 		}
 		finishedOnce := func(id string) bool {
 			return lib.WaitUntil(lib.Live, func() bool { w.mu.Lock(); defer w.mu.Unlock(); return w.finished[id] >= 1 })
 		}
-		drainUntilClosed := func(id string, ch <-chan requestreply.Reply[Res], s callerSpec) (n int, closed bool) {
+		drainUntilClosed := func(id string, ch <-chan requestreply.Reply[R], s callerSpec) (n int, closed bool) {
 			deadline := time.After(lib.Live)
 			for {
 				select {
@@ -299,7 +342,7 @@ func TestRequestReply(t *testing.T) {
 				if s.Behav == 5 {
 					ctx, cancel := context.WithTimeout(context.Background(), lib.Live)
 					defer cancel()
-					r, err := requestreply.SendWithReply[Res](ctx, bus, backend, &Cmd{ID: id})
+					r, err := requestreply.SendWithReply[R](ctx, bus, backend, &Cmd{ID: id})
 					if err != nil {
 						bad("SendWithReply for %s failed: %v", id, err)
 						return
@@ -310,7 +353,7 @@ func TestRequestReply(t *testing.T) {
 					}
 					return
 				}
-				ch, cancel, err := requestreply.SendWithReplies[Res](context.Background(), bus, backend, &Cmd{ID: id})
+				ch, cancel, err := requestreply.SendWithReplies[R](context.Background(), bus, backend, &Cmd{ID: id})
 				if err != nil {
 					bad("SendWithReplies for %s failed: %v", id, err)
 					return
@@ -428,6 +471,25 @@ func TestRequestReply(t *testing.T) {
 				}
 			}
 		}
+		for id, as := range seenAttempts {
+			seen := map[int]bool{}
+			for _, a := range as {
+				if seen[a] {
+					bad("replies: caller of %s received the reply of attempt %d more than once (%v)", id, a, as)
+				}
+				seen[a] = true
+			}
+		}
+		for i, s := range specs {
+			id := fmt.Sprintf("cmd%d", i)
+			want := 1
+			if !ackErrs {
+				want = s.Fails + 1
+			}
+			if got := w.attempts[id]; got > want {
+				bad("settlement: handler executed %d times for %s, script (fails=%d, AckCommandErrors=%v) allows %d", got, id, s.Fails, ackErrs, want)
+			}
+		}
 		for id, n := range w.finished {
 			if n != 1 {
 				bad("listener: OnListenForReplyFinished ran %d times for %s", n, id)
@@ -454,9 +516,9 @@ func TestRequestReply(t *testing.T) {
 				stops++
 			}
 		}
-		lib.Case(fmt.Sprintf("%v|%v|%v", specs, ackErrs, timeout != nil), nCallers >= 2 && stops >= 1, fmt.Sprintf("ackErrs=%v", ackErrs), fmt.Sprintf("timeout=%v", timeout != nil))
+		lib.Case(fmt.Sprintf("%v|%v|%v|%v", specs, ackErrs, timeout != nil, withResult), nCallers >= 2 && stops >= 1, fmt.Sprintf("ackErrs=%v", ackErrs), fmt.Sprintf("timeout=%v", timeout != nil), fmt.Sprintf("withResult=%v", withResult))
 		if nCallers >= 2 && stops >= 1 {
 			lib.Sample(map[string]any{"test": "RequestReply", "callers": fmt.Sprintf("%+v", specs), "ack_command_errors": ackErrs, "timeout": timeout != nil})
 		}
-	})
+	}
 }
